@@ -29,12 +29,13 @@ type vhost struct {
 }
 
 type vhostServer struct {
-	srv    *transport.Server
-	ep     *Endpoint
-	addr   *net.UDPAddr
-	pki    *PKI
-	hosts  []*vhost
-	hidden bool
+	notHidden *vhost // a host block that is NOT among the hidden-mode names (nil if every block is)
+	srv       *transport.Server
+	ep        *Endpoint
+	addr      *net.UDPAddr
+	pki       *PKI
+	hosts     []*vhost
+	hidden    bool
 }
 
 // startVHostServer builds a transport server whose certificate callbacks are the
@@ -75,8 +76,10 @@ func startVHostServer(r *Run, n *Net, nHosts int, hidden bool, fallback bool, mi
 		h.leaf = vs.pki.Leaf(h.key.Public, 24*time.Hour, certs.DNSName(h.name), certs.RawStringName(h.name))
 		sc.Key, sc.KEMKey, sc.Certificate, sc.Intermediate = h.key, h.kem, h.leaf, vs.pki.Int
 		vs.hosts = append(vs.hosts, h)
-		if hidden {
+		if hidden && !(len(misnamed) > 1 && misnamed[1]) {
 			sc.HiddenModeVHostNames = append(sc.HiddenModeVHostNames, h.name)
+		} else if hidden {
+			vs.notHidden = h // the catch-all block exists, but is not enabled for hidden mode
 		}
 	}
 	if len(misnamed) > 0 && misnamed[0] {
